@@ -670,3 +670,23 @@ Proof.
     replace (/ (exp y - 1) * - (exp y - 1)) with (-1) by (field; lra). lra. }
   unfold Rdiv at 1. lra.
 Qed.
+
+(* 64 halvings are enough whenever max_dsoc * stay <= 1e9 (Python's recursion limit is ~1000) *)
+Lemma depth_64 A : A <= 1000000000 -> 1/5 + A < tol9 * 2 ^ 64.
+Proof. intro H. unfold tol9. simpl. lra. Qed.
+
+Theorem fit_bisect_64 E (n : nat) V T cap :
+  0 < V -> 0 < T -> 0 < cap -> 0 <= E -> (0 < n)%nat ->
+  closed_form_test E (INR n) V T cap = false ->
+  let m := Fit_max_dsoc T V cap in
+  E / cap <= Fit_delta_from m (INR n) Fit_transition_soc 0 ->
+  m * INR n <= 1000000000 ->
+  exists x,
+    get_init_cap_R 64 E (INR n) V T cap = FVR (x * cap) /\
+    4/5 - m * INR n <= x <= 1 /\
+    Rabs (Fit_delta_from m (INR n) Fit_transition_soc x - E / cap) < tol9.
+Proof.
+  intros HV HT Hc HE Hn Ht m Hf HA.
+  destruct (fit_bisect 63 E n V T cap HV HT Hc HE Hn Ht Hf (depth_64 _ HA)) as (x & H1 & H2 & H3 & _).
+  exists x. auto.
+Qed.
